@@ -507,7 +507,8 @@ def t1_timer_value(C, rep, rid):
     if not sl:
         return
     s = sl[0]
-    e = strip(C.X.operand(b, s.args[0]))
+    raw = strip(C.X.operand(b, s.args[0]))
+    e = mm.inline_pure(C.F, C.X, raw)
     ss = L.state_switch
     n_free = n_pending = 0
     for a in alts(e):
@@ -540,9 +541,11 @@ def t1_timer_value(C, rep, rid):
         FR, PE = ss[1].get("Free"), ss[1].get("Pending")
         if FR is not None and PE is not None:
             # the select is reachable from arm(Pending) only through the saturating_sub definition block
-            subs = [c for c in b.calls if c.name == "std::time::Duration::saturating_sub"]
-            sub_top = [c for c in subs if any(a2[0] == "call" and a2[3][1] == c.bb for a2 in alts(e))]
-            cut = blocks(sub_top)
+            # definition sites (in this body) of the alternatives that are not the plain configured timeout
+            cut = set()
+            for a2 in alts(raw):
+                if a2[0] == "call" and a2[3][0] == b.cdef:
+                    cut.add(a2[3][1])
             ok = sel.switch_bb not in b.reach([PE], removed_nodes=cut) if cut else False
             rep.ob(rid, ok, L.fn, "arm(Pending) reaches the select only with the reduced timer", where=s.loc, how="select unreachable from arm(Pending) when the remaining-time computation is removed",
                    detail="" if ok else "after a restart with a stored Pending state the select can be entered with a full (or unrelated) timeout")
